@@ -135,9 +135,13 @@ func (v *Value) Format(opts ...Options) error {
 // format accepts two []Options to avoid the allocation of appending them together.
 // It is equivalent to v.Format(append(opts1, opts2...)...).
 func (v *Value) format(opts1, opts2 []Options) error {
-	e := getBufferedEncoder(opts1...)
+	e := getBufferedEncoder()
 	defer putBufferedEncoder(e)
+	e.s.Join(opts1...)
 	e.s.Join(opts2...)
+	if e.s.Flags.Get(jsonflags.Multiline) {
+		e.s.InitializeMultiline() // only after all options are joined
+	}
 	e.s.Flags.Set(jsonflags.OmitTopLevelNewline | 1)
 	if err := e.s.WriteValue(*v); err != nil {
 		return err
